@@ -165,7 +165,7 @@ func lightNode(r *vk.Run, keys, atk world.Keys) {
 		}
 		p, err := world.ProduceChain(ctx, spec, keys)
 		if err != nil {
-			r.Violation("producer", err.Error(), nil)
+			r.Inconclusive("the aggregator producing the reference chain failed (not this property's business): " + err.Error())
 			return
 		}
 		runLight(r, rng, p, LightCase{ID: id, Shape: shape}, atk)
